@@ -11,7 +11,7 @@ LEVEL = "exploration"
 NEED = ("h4x",)
 RULE = ("input: a file holding objects of every interface and special-element kind (plain/linked/compressed/external H "
         "elements, Vdata+Vgroup with attributes, contiguous/chunked+deflate/unlimited SDS with attributes, GR image "
-        "with palette and attribute, annotations) built fault-free; it is opened read-only through H, V, SD, GR and "
+        "with palette and attribute, annotations, a dataset created but never written, an old-style RLE raster image) built fault-free; it is opened read-only through H, V, SD, GR and "
         "AN at once and a generated program of 5..40 calls drawn from the full read, inquiry and mutation vocabulary "
         "(~60 mutators with generated arguments) is run, then everything is closed. Oracle: file and external file "
         "byte-identical (sha1) and the stdio write log contains no write on them; each mutator of the must-fail list "
@@ -67,6 +67,12 @@ MUTATORS = [
     # the same through read access elements on every special-element kind (linked, compressed, external)
     _m("Hwrite", V("aidl"), 3, b"xyz"), _m("Hwrite", V("aidc"), 3, b"xyz"), _m("Hwrite", V("aidx"), 3, b"xyz"),
     _m("Htrunc", V("aidl"), 2, must=False), _m("Htrunc", V("aidx"), 2, must=False),
+    # the documented upper-case spellings of the access string
+    _m("VSattach", V("f"), -1, "W"), _m("VSattach", V("f"), V("vr"), "W"), _m("Vattach", V("f"), -1, "W"),
+    _m("Vattach", V("f"), V("gref"), "W"),
+    # a dataset that holds no data yet, and an old-style RLE raster image reached through GR
+    _m("SDwritedata", V("s3"), i32s(0), None, i32s(4), bytes(16)),
+    _m("GRwriteimage", V("ri8"), i32s(0, 0), None, i32s(6, 5), bytes(30)),
 ]
 READERS = [
     lambda p: p.call("i", "Hgetelement", V("f"), 1000, 1, Out(44)),
@@ -129,6 +135,17 @@ def run_case(case):
         rb = run(bp, cwd=d)
         if not rb.done:
             return CaseResult(failure=dict(kind="harness: building the input file failed", detail=rb.sanitizer_summary()))
+        # two more stored objects: a dataset that was created but never written, and an old-style (DFR8)
+        # run-length compressed raster image
+        xp = Prog()
+        xp.call("i", "SDstart", "combo.hdf", 3, bind="sd")
+        xp.call("i", "SDcreate", V("sd"), "empty", 24, 1, i32s(4), bind="s")
+        xp.call("i", "SDendaccess", V("s"))
+        xp.call("i", "SDend", V("sd"))
+        xp.call("i", "DFR8addimage", "combo.hdf", bytes((i * 3) & 0xff for i in range(30)), 6, 5, 11)
+        rx = run(xp, cwd=d)
+        if not rx.done or any(r.ret == -1 for r in rx.res.values() if r.kind == "R"):
+            return CaseResult(failure=dict(kind="harness: extending the input file failed", detail=rx.sanitizer_summary()))
         files = [os.path.join(d, "combo.hdf"), os.path.join(d, "combo.ext")]
         before = [sha(x) for x in files]
         listing0 = sorted(os.listdir(d))
@@ -139,7 +156,7 @@ def run_case(case):
         p = Prog()
         must = []
         p.call("i", "SDstart", "combo.hdf", acc, bind="sd")
-        for i in range(3):
+        for i in range(4):
             p.call("i", "SDselect", V("sd"), i, bind="s%d" % i)
         p.call("i", "SDgetdimid", V("s0"), 0, bind="d0")
         p.call("i", "Hopen", "combo.hdf", acc, 0, bind="f")
@@ -156,6 +173,7 @@ def run_case(case):
         p.call("i", "GRstart", V("f"), bind="gr")
         p.call("i", "GRselect", V("gr"), 0, bind="ri")
         p.call("i", "GRgetlutid", V("ri"), 0, bind="lut")
+        p.call("i", "GRselect", V("gr"), 1, bind="ri8")
         p.call("i", "ANstart", V("f"), bind="an")
         p.call("i", "ANselect", V("an"), 0, 1, bind="ann")
         used = set()
@@ -173,6 +191,7 @@ def run_case(case):
         p.call("i", "ANendaccess", V("ann"))
         p.call("i", "ANend", V("an"))
         p.call("i", "GRendaccess", V("ri"))
+        p.call("i", "GRendaccess", V("ri8"))
         p.call("i", "GRend", V("gr"))
         p.call("i", "VSdetach", V("vs"))
         p.call("i", "Vdetach", V("g"))
@@ -181,7 +200,7 @@ def run_case(case):
         for x in ("aidl", "aidc", "aidx"):
             p.call("i", "Hendaccess", V(x))
         lclose = p.call("i", "Hclose", V("f"))
-        for i in range(3):
+        for i in range(4):
             p.call("i", "SDendaccess", V("s%d" % i))
         lend = p.call("i", "SDend", V("sd"))
         wlog = os.path.join(d, "wlog")
